@@ -404,12 +404,18 @@ func (h H) staleSnapshotIgnored(rule string) {
 		cal := h.fn(spec)
 		for k, c := range h.P.CallsTo(fn, cal) {
 			n++
-			h.gate(rule+" stale-snapshot-ignored", h.site(fn, cal, k), c, want)
+			if spec == "raft:(*snapshots).new" {
+				h.gate(rule+" stale-snapshot-ignored", h.site(fn, cal, k), c, want)
+			} else {
+				// behind the test; the only write of the commit index in between is the
+				// handler's own setCommitIndex(snapshot index) (install-commit rule)
+				h.gateLoose(rule+" stale-snapshot-ignored", h.site(fn, cal, k), c, want)
+			}
 		}
 	}
 	for _, s := range h.storesIn(fn, "raft:Raft.commitIndex") {
 		n++
-		h.gate(rule+" stale-snapshot-ignored", "(*Raft).onInstallSnapRequest store commitIndex", s.Instr, want)
+		h.gateLoose(rule+" stale-snapshot-ignored", "(*Raft).onInstallSnapRequest store commitIndex", s.Instr, want)
 		v := h.P.Info(fn).Sym(storeVal(s.Instr)).String()
 		h.C.Check(rule+" commit-index-from-snapshot", "(*Raft).onInstallSnapRequest store commitIndex", isSnapIndexExpr(v, "Raft.storage"), h.pos(s.Instr), "after discarding the log the commit index must be the snapshot index; found "+v)
 	}
